@@ -11,8 +11,117 @@ fn set_of(j: &J) -> BTreeSet<String> {
     j.as_array().map(|a| a.iter().filter_map(|x| x.as_str().map(String::from)).collect()).unwrap_or_default()
 }
 
+/// canonical form of a view (arrays that are sets get sorted) so that the specification's
+/// Interp output and the harness projection can be compared structurally
+fn canon_vals(vals: &J) -> Vec<String> {
+    let mut v: Vec<String> = vals.as_array().map(|a| a.iter().map(|x| {
+        format!("{}@{}:{}:{}:{}:{}", x["id"][0], x["id"][1], x["v"]["k"].as_str().unwrap_or(""),
+            x["v"]["s"].as_str().unwrap_or(""), x["v"]["n"], x["v"]["toks"])
+    }).collect()).unwrap_or_default();
+    v.sort();
+    v
+}
+
+fn canon_view(view: &J) -> BTreeMap<String, J> {
+    let mut out = BTreeMap::new();
+    for o in view.as_array().cloned().unwrap_or_default() {
+        let id = format!("{}@{}", o["id"][0], o["id"][1]);
+        let mut ents: Vec<(String, String, Vec<String>)> = o["ents"].as_array().map(|a| a.iter().map(|e| {
+            (e["k"].as_str().unwrap_or("").to_string(), format!("{}@{}", e["win"][0], e["win"][1]), canon_vals(&e["vals"]))
+        }).collect()).unwrap_or_default();
+        ents.sort();
+        let elems: Vec<(String, Vec<String>)> = o["elems"].as_array().map(|a| a.iter().map(|e| {
+            (format!("{}@{}", e["win"][0], e["win"][1]), canon_vals(&e["vals"]))
+        }).collect()).unwrap_or_default();
+        let ty = o["ty"].as_str().unwrap_or("");
+        let len = if ty == "list" || ty == "text" { o["len"].as_i64().unwrap_or(0) } else { 0 };
+        out.insert(id, json!({"ty": ty, "len": len, "ents": ents, "elems": elems}));
+    }
+    out
+}
+
+fn replay_doc(args: &[String]) {
+    use amverif::proj;
+    use automerge::transaction::CommitOptions;
+    world::silence_panics();
+    let with_list = args.get(4).map(|s| s == "list").unwrap_or(false);
+    let text = std::fs::read_to_string(&args[2]).expect("behaviours");
+    let mut nb = 0usize;
+    let mut nsteps = 0usize;
+    let mut mism: Vec<J> = vec![];
+    for line in text.lines().filter(|l| !l.trim().is_empty()) {
+        let beh: J = serde_json::from_str(line).expect("behaviour json");
+        nb += 1;
+        let mut reps: BTreeMap<i64, Automerge> = BTreeMap::new();
+        for k in 1..=3i64 {
+            reps.insert(k, Automerge::new().with_actor(enc::actor_from_num(k as u8)));
+        }
+        if with_list {
+            let d = reps.get_mut(&1).unwrap();
+            let mut tx = d.transaction();
+            for c in [json!({"fn":"put_object","obj":[0,0],"key":"l","ty":"list"}),
+                      json!({"fn":"insert","obj":[1,1],"idx":0,"val":{"k":"counter","s":"","n":1,"toks":[]}}),
+                      json!({"fn":"insert","obj":[1,1],"idx":1,"val":{"k":"int","s":"7","n":0,"toks":[]}})] {
+                calls::exec(&mut tx, &c);
+            }
+            tx.commit_with(CommitOptions::default().with_time(0));
+            let mut base = reps[&1].clone();
+            for k in 2..=3i64 {
+                reps.get_mut(&k).unwrap().merge(&mut base).unwrap();
+            }
+        }
+        for (si, step) in beh.as_array().unwrap().iter().enumerate() {
+            nsteps += 1;
+            let r = step["r"].as_i64().unwrap();
+            let res = catch_unwind(AssertUnwindSafe(|| {
+                let res;
+                if let Some(s) = step.get("merge").and_then(|m| m.as_i64()) {
+                    let mut other = reps[&s].clone();
+                    res = match reps.get_mut(&r).unwrap().merge(&mut other) { Ok(_) => "ok".to_string(), Err(e) => calls::err_name(&e) };
+                } else {
+                    let d = reps.get_mut(&r).unwrap();
+                    let mut tx = d.transaction();
+                    let out = calls::exec(&mut tx, &step["call"]);
+                    tx.commit_with(CommitOptions::default().with_time(0));
+                    res = out["res"].as_str().unwrap_or("?").to_string();
+                }
+                (res, proj::view(&reps[&r], None))
+            }));
+            match res {
+                Ok((res, view)) => {
+                    let mut bad = vec![];
+                    let rc = if res == "ok" { "ok" } else { "err" };
+                    if rc != step["res"].as_str().unwrap_or("") {
+                        bad.push("res".to_string());
+                    }
+                    let a = canon_view(&view);
+                    let b = canon_view(&step["exp"]);
+                    if a != b {
+                        bad.push("view".to_string());
+                    }
+                    if !bad.is_empty() {
+                        mism.push(json!({"behaviour": nb - 1, "step": si, "fields": bad, "expected": step, "got": {"res": res, "view": view}, "line": beh}));
+                        break;
+                    }
+                }
+                Err(p) => {
+                    mism.push(json!({"behaviour": nb - 1, "step": si, "fields": ["panic"], "expected": step, "got": world::panic_msg(p), "line": beh}));
+                    break;
+                }
+            }
+        }
+    }
+    let out = json!({"behaviours": nb, "steps": nsteps, "mismatches": mism});
+    std::fs::write(&args[3], out.to_string()).unwrap();
+    println!("REPLAY behaviours={} steps={} mismatches={}", nb, nsteps, out["mismatches"].as_array().unwrap().len());
+}
+
 fn main() {
     let args: Vec<String> = std::env::args().collect();
+    if args.len() >= 4 && args[1] == "doc" {
+        // replay doc <behaviours.ndjson> <out.json> [list]
+        return replay_doc(&args);
+    }
     if args.len() < 5 || args[1] != "delivery" {
         eprintln!("usage: replay delivery <dag.json> <behaviours.ndjson> <out.json>");
         std::process::exit(2);
